@@ -9,8 +9,14 @@ use super::types::{
 use rssl_ast as ast;
 use rssl_ir as ir;
 use rssl_text::*;
+#[cfg(not(trark_rssl_verif))]
 use std::collections::HashMap;
+#[cfg(trark_rssl_verif)]
+use rssl_text::verif_collections::HashMap;
+#[cfg(not(trark_rssl_verif))]
 use std::collections::HashSet;
+#[cfg(trark_rssl_verif)]
+use rssl_text::verif_collections::HashSet;
 use std::collections::hash_map::Entry;
 
 /// Process a struct definition
